@@ -132,6 +132,8 @@ def swap_ij(nf):
 
 
 def run(ck, prog):
+    from props.common import check_memos
+    ck.attempt(check_memos, ck, prog)
     ck.explanation = (
         "The double loop of sequence_charge_decoration is summarised as a pair fold: loop ranges (affine), the "
         "accumulated term as an exact rational normal form with atoms for the two charges and (i-j)^(1/2), shifted "
